@@ -401,7 +401,7 @@ func (rw *rewriter) syncMethod(call *ast.CallExpr) (typ, method string, recv ast
 		return
 	}
 	typ = named.Obj().Name()
-	if typ != "Mutex" && typ != "RWMutex" && typ != "WaitGroup" && typ != "Pool" {
+	if typ != "Mutex" && typ != "RWMutex" && typ != "WaitGroup" && typ != "Pool" && typ != "Once" {
 		return
 	}
 	method = f.Name()
@@ -479,6 +479,9 @@ func (rw *rewriter) callExpr(e *ast.CallExpr) ast.Expr {
 			case "WaitGroup.Add":
 				rw.count("sync-WGAdd")
 				return rw.call("WGAdd", recv, rw.expr(e.Args[0], ctxR), rw.site(e))
+			case "Once.Do":
+				rw.count("sync-OnceDo")
+				return rw.call("OnceDo", recv, rw.expr(e.Args[0], ctxR), rw.site(e))
 			case "Pool.Get":
 				rw.count("sync-PoolGet")
 				return rw.call("PoolGet", recv, rw.site(e))
